@@ -141,20 +141,21 @@ def run(ctx: core.Ctx) -> int:
                msg="the frontier is not processed first-in first-out with the goal test on the popped entry (paths may not be shortest / may be wrong)")
     inner = next((s for s in (loop.body if loop else []) if isinstance(s, ast.For)), None)
     ext = False
+    from .. import normstmt as _ns
+    _al = _ns.Aliases(search, linear_calls=True)
     if inner is not None:
         it_ok = ast.unparse(inner.iter).replace(" ", "") == "current_state.available_transitions()" and isinstance(inner.target, ast.Name)
         tn = inner.target.id if isinstance(inner.target, ast.Name) else "?"
-        itxt = [ast.unparse(s).replace(" ", "") for s in inner.body]
-        ext = it_ok and f"transition_callable=getattr(current_state,{tn})" in itxt and \
-            "end_state_type=inspect.signature(transition_callable).return_annotation" in itxt and \
-            f"frontier.append(SearchState(end_state_type,transitions+[{tn}]))" in itxt
+        apps = [c for st in inner.body for c in ast.walk(st) if isinstance(c, ast.Call) and ast.unparse(c.func) == "frontier.append"]
+        want = f"frontier.append(SearchState(inspect.signature(getattr(current_state,{tn})).return_annotation,transitions+[{tn}]))"
+        ext = it_ok and len(apps) == 1 and _al.text(apps[0]) == want
     ctx.oblige("SEARCH", where, "each listed transition appends (its annotated target, popped path + [name]) at the back", ext, file=F, func="StateMachineState.search",
                construct="path extension", msg="frontier entries do not extend the popped entry's path by the transition just looked up")
     after = b[b.index(loop) + 1:] if loop in b else []
     okx = any(isinstance(s, ast.Raise) and "ValueError" in ast.unparse(s) for s in after)
     ctx.oblige("SEARCH", where, "exhaustion -> raise ValueError", okx, file=F, func="StateMachineState.search", construct="exhaustion raise",
                msg="an unreachable target does not end in a raise")
-    init_f = any(ast.unparse(s).replace(" ", "") == "frontier=[SearchState(self,[])]" for s in b)
+    init_f = any(isinstance(s, ast.Assign) and ast.unparse(s.targets[0]) == "frontier" and _al.text(s.value) == "[SearchState(self,[])]" for s in b)
     ctx.oblige("SEARCH", where, "search starts from (self, [])", init_f, file=F, func="StateMachineState.search", construct="initial frontier",
                msg="the search does not start from this state with an empty path")
     # ---- FIT
